@@ -996,4 +996,15 @@ theorem C09_reachable_creation_inherited_iff (ops : List (Op ⊕ Forest.COp)) :
   fun r hr path sub hs env' l hl p ns =>
     C09_inherited_iff env' r.erase path sub l hs (C09_reachable_creation_unique ops r hr path sub hs) hl p ns
 
+/-- ⟦C09_inv_unresolved⟧ **`unresolved_namespaces` from the invariant alone**: the characterisation of
+    `C09_reachable_unresolved` at every node of every tree of ANY forest with `Forest.Inv` (however it was reached). -/
+theorem C09_inv_unresolved (f : Forest) (hi : f.Inv) :
+    ∀ r ∈ f.roots, ∀ (path : Path) (sub : Tree),
+      r.erase.at? path = some sub → ∀ (env' : Env) (l : List Nat),
+      unresolvedNamespaces env' r.erase path = some l → ∀ ns : Nat,
+      (ns ∈ l ↔ ∃ q chain e, sub.ancestorsOrSelf q = some chain ∧ sub.at? q = some e ∧
+        NeedsNs env' (scopeOf (elementFrames chain)) e ns) :=
+  fun r hr path sub hs env' l hl ns =>
+    C09_unresolved env' r.erase path sub l hs (Reach.uniqueDeclsBelow_root hi hr hs) hl ns
+
 end XotModel.Props
